@@ -50,7 +50,8 @@ type c16Case struct {
 	// CfgVia (mail.Client mode): how logging was configured. "" = the options WithLogger + WithDebugLog;
 	// "setters" = Client.SetLogger + Client.SetDebugLog(true) before the dial; "authdata-off" = the Client
 	// was created WithLogAuthData() and the application switched it off again with SetLogAuthData(false)
-	// before the dial (auth-data logging is then NOT enabled).
+	// before the dial (auth-data logging is then NOT enabled); "setters-after-dial" = no logging during the dial,
+	// SetLogger + SetDebugLog(true) on the established connection before the message is sent.
 	CfgVia string `json:"cfg_via,omitempty"`
 }
 
@@ -186,7 +187,7 @@ func c16Run(c c16Case) []*core.Violation {
 	default:
 		theLogger = capture
 	}
-	if c.CfgVia != "setters" {
+	if c.CfgVia != "setters" && c.CfgVia != "setters-after-dial" {
 		opts = append(opts, mail.WithLogger(theLogger), mail.WithDebugLog())
 	}
 	if c.CfgVia == "authdata-off" {
@@ -294,6 +295,12 @@ func c16Run(c c16Case) []*core.Violation {
 		r = watchdog(20*time.Second, d, func() error {
 			if dialErr = cl.DialWithContext(context.Background()); dialErr != nil {
 				return nil
+			}
+			if c.CfgVia == "setters-after-dial" {
+				// logging switched on for an established, authenticated connection: from here on the traffic
+				// is logged normally
+				cl.SetLogger(theLogger)
+				cl.SetDebugLog(true)
 			}
 			if c.SendMsg {
 				sendErr = cl.Send(m)
@@ -442,6 +449,11 @@ func c16Run(c c16Case) []*core.Violation {
 			}
 		}
 	}
+	if nrecs == 0 && c.CfgVia == "setters-after-dial" && (dialErr != nil || !c.SendMsg) {
+		// logging is only switched on after a successful dial, and only a send produces traffic then
+		rec.Skip()
+		return nil
+	}
 	if nrecs == 0 && debugWasOn {
 		vs = append(vs, core.V("HARNESS-nolog", "no log record was captured at all: %+v dialErr=%v", c, dialErr))
 	}
@@ -513,7 +525,7 @@ func c16Gen(t *rapid.T) c16Case {
 		c.MidStep = rapid.IntRange(1, 2).Draw(t, "midstep")
 		c.Mech = strings.TrimSuffix(c.Mech, "-NOENC")
 	} else {
-		c.CfgVia = rapid.SampledFrom([]string{"", "", "", "setters", "authdata-off"}).Draw(t, "cfgvia")
+		c.CfgVia = rapid.SampledFrom([]string{"", "", "", "setters", "authdata-off", "setters-after-dial"}).Draw(t, "cfgvia")
 	}
 	if strings.HasPrefix(c.Mech, "LOGIN") {
 		c.Prompts = rapid.SampledFrom([]string{"", "", "Username:|Username:", "User Name|User Password", "username:|userpassword:", "Login:|Secret:", "|", "User:|user secret"}).Draw(t, "prompts")
